@@ -13,6 +13,7 @@ from .. import cards, rel, yrun
 from ..engine import digest
 from ..ref import ref_basis, ref_ew
 
+HISTORY_SWEEP = True
 ID = "C02"
 KINDS = ["F2", "FL", "F3", "g1", "gL", "g4"]
 HEAVY = ["light", "total", "charm", "bottom", "top"]
